@@ -181,7 +181,7 @@ namespace fastscapelib
         {
             // TODO: validate value
             m_slope_exp = value;
-            m_linear = (std::fabs(value) - 1) <= std::numeric_limits<double>::epsilon();
+            m_linear = std::fabs(value - 1) <= std::numeric_limits<double>::epsilon();
 
             if (!m_linear && !m_flow_graph.single_flow())
             {
@@ -355,7 +355,7 @@ namespace fastscapelib
                         auto factor_delta_exp = factor * std::pow(delta_k, m_slope_exp);
                         auto func = delta_k + factor_delta_exp - delta_0;
 
-                        if (func <= m_tolerance)
+                        if (std::fabs(func) <= m_tolerance)
                         {
                             break;
                         }
